@@ -121,3 +121,9 @@ def rep_cells(c: Cell, n: Int) -> Seq[Cell]:
     if n <= 0:
         return []
     return rep_cells(c, n - 1) + [c]
+
+
+@spec(opaque=True)
+def sorted_keyset(members: Map[Key, Bool], n: Int) -> Seq[Key]:
+    # the n members of a set of group keys in ascending order (what sorted(list(s)) returns; A-SORT)
+    raise NotImplementedError
